@@ -713,8 +713,12 @@ def draw_config(ch, rng, nmodes, cfgname, domain_hint, allow_srs):
         if allow_srs and ch.flip(1, 3, "srs_on"):
             cs.srspv, cs.srs_idx = _pv_forms(ch, cs.rows, "srspv")
             cs.srsQs = [(10,), (25, 50), 20][ch.draw(3, "srsQs")]
-            cs.srsconv = [1.0, 2.5, None][ch.draw(3, "srsconv")]
-            cs.srsopts = [{}, {"eqsine": True}, {"ic": "steady"}, {"eqsine": True, "ic": "steady"}, None][ch.draw(5, "srsopts")]
+            cs.srsconv = [1.0, 2.5, None, -1.5][ch.weighted([3, 3, 3, 1], "srsconv")]
+            cs.srsopts = [
+                {}, {"eqsine": True}, {"ic": "steady"}, {"eqsine": True, "ic": "steady"}, None,
+                # signed peak statistics: the spectrum (hence its envelope over cases) may be negative everywhere
+                {"peak": "negs"}, {"peak": "poss"}, {"peak": "neg", "ic": "steady"}, {"peak": "negs", "eqsine": True}, {"peak": "rms"},
+            ][ch.weighted([3, 3, 3, 3, 3, 2, 1, 1, 1, 1], "srsopts")]
             cs.nfrq = 2 + ch.draw(3, "nsrsfrq")
         cats.append(cs)
     # DR_Event.add: the categories arrive in one or two DR_Def groups, each group
@@ -1307,7 +1311,7 @@ def model_srs(M, ev, cs, case, q):
     fact = 1.0 if cs.srsconv is None else cs.srsconv
     with np.errstate(all="ignore"), _quiet():
         if ev.domain == "time":
-            o = {k: v for k, v in opts.items() if k in ("eqsine", "ic")}
+            o = {k: v for k, v in opts.items() if k in ("eqsine", "ic", "peak")}
             return fact * srs.srs(R.T, 1.0 / ev.h, frq, q, **o).T
         if ev.domain == "frf":
             o = {}
